@@ -197,9 +197,9 @@ var clauseKeywords = map[string]bool{
 	"props": true, "inline": true, "pure": true, "assumed": true, "refines": true, "dyncall": true,
 	"calluse": true, "bind": true, "free": true, "nosafety": true, "let": true, "invariant": true,
 	"func": true, "extern": true, "sort": true, "const": true, "fun": true, "pred": true, "lemma": true,
-	"axiom": true, "type": true, "method": true, "returns": true, "params": true, "variant": true,
+	"axiom": true, "type": true, "macro": true, "method": true, "returns": true, "params": true, "variant": true,
 	"induction": true, "assert": true, "assume": true, "unfold": true, "use": true, "useif": true, "set": true,
-	"body": true, "havoc": true, "captured": true, "defines": true, "standalone": true,
+	"body": true, "havoc": true, "captured": true, "defines": true, "standalone": true, "aspect": true,
 }
 
 func (p *parser) parseType() *TypeExpr {
@@ -580,8 +580,11 @@ func (p *parser) parseHint() *Hint {
 	h.Label, h.Props = name, props
 	from := p.peek().pos
 	switch t.s {
-	case "assert", "assume", "unfold", "use", "useif":
+	case "assert", "lassert", "assume", "unfold", "use", "useif":
 		h.E = p.parseExpr()
+	case "forget":
+		// forget call: the facts assumed from the most recent call's contract are visible only inside this block
+		h.Name = p.ident()
 	case "set", "let":
 		h.Name = p.ident()
 		p.expectOp(":=")
@@ -598,7 +601,7 @@ func (p *parser) parseHint() *Hint {
 }
 
 func isHintKw(s string) bool {
-	return s == "assert" || s == "assume" || s == "unfold" || s == "use" || s == "useif" || s == "set" || s == "havoc" || s == "let"
+	return s == "assert" || s == "assume" || s == "unfold" || s == "use" || s == "useif" || s == "set" || s == "havoc" || s == "let" || s == "forget" || s == "lassert"
 }
 
 func (p *parser) parseHintBlock() []*Hint {
@@ -752,6 +755,11 @@ func (p *parser) parseFuncSpecBody(fs *FuncSpec) {
 		case "nosafety":
 			p.next()
 			fs.NoSafety = true
+		case "aspect":
+			// "func F aspect NAME": a variant proving extra postconditions of the plain contract
+			p.next()
+			fs.Variant = p.ident()
+			fs.Aspect = true
 		case "standalone":
 			// a variant that does not inherit the clauses of the plain contract
 			p.next()
@@ -893,7 +901,7 @@ func (p *parser) parseFile() (sf *SpecFile, err error) {
 			name := p.ident()
 			ty := p.parseType()
 			sf.Ghosts = append(sf.Ghosts, &GhostVar{name, ty, t.s == "const"})
-		case "fun", "pred":
+		case "fun", "pred", "macro":
 			p.next()
 			f := &SpecFun{File: p.file}
 			f.Name = p.ident()
@@ -903,6 +911,10 @@ func (p *parser) parseFile() (sf *SpecFile, err error) {
 			if t.s == "pred" {
 				f.Macro = true
 				f.Result = &TypeExpr{Kind: "name", Name: "bool"}
+			} else if t.s == "macro" {
+				// a state-reading abbreviation of any type, expanded in place
+				f.Macro = true
+				f.Result = p.parseType()
 			} else {
 				f.Result = p.parseType()
 			}
